@@ -689,3 +689,20 @@ _upd("C18", "run_satisfies_spec: all nine clauses of the trace specification hol
      "Open: the spurious-close, hooks-run, bounded and prompt clauses of the trace spec for model runs; liveness under fairness.",
      "Open: 'the driver accepts a trace' does not yet imply 'some model run has exactly this projection incl. time stamps'; the clock "
      "discipline idealises the scheduler (the 1 s slack stands for it); liveness under fairness.")
+
+# --- XG: tie by translation + proof ------------------------------------------------------------------------------
+# gen/funcs.go translates these Go leaf functions mechanically into lean/Hertz/Gen/Funcs.lean on every run (scheme:
+# gen/FUNCS.md, target language lean/Hertz/GoSem.lean); Hertz.Props.Tie proves each translation equal to the hand model
+# on ALL inputs.  The module is built and audited with every property that relies on one of the functions.
+TIED = {
+    "C01": "CaseInsensitiveCompare, NormalizeHeaderKey, NextLine, IsBadTrailer, LowercaseBytes, ParseUintBuf/ParseUint (against both hand models)",
+    "C03": "CaseInsensitiveCompare, NormalizeHeaderKey, NextLine, IsBadTrailer, ParseUintBuf/ParseUint (against both hand models)",
+    "C05": "appendHeaderLine, newlineToSpace, CaseInsensitiveCompare",
+    "C08": "ParseUintBuf (with its overflow test and 64-bit arithmetic), ParseUint, ParseByteRange (never panics; for 0 <= contentLength)",
+    "C17": "AppendQuotedArg, AppendQuotedPath, decodeArgAppend, decodeArgAppendNoPlus",
+}
+for _p, _f in TIED.items():
+    PROPS[_p]["modules"] = PROPS[_p]["modules"] + ["Hertz.Props.Tie"]
+    PROPS[_p]["level_text"] += (" Tied by translation+proof (no sampling): the Go source of " + _f + " is translated mechanically "
+                                "(gen/funcs.go) on every run and proved equal to the model for all inputs (Hertz.Props.Tie).")
+    PROPS[_p]["trusted"] = PROPS[_p].get("trusted", []) + ["Go->Lean function translator gen/funcs.go + lean/Hertz/GoSem.lean (semantics of the translated subset)"]
